@@ -356,6 +356,12 @@ pub fn key_universe_large() -> Vec<V> {
     // the same members written in another order, and a neighbour in between
     u.push(V::Obj(vec![("b".into(), V::Int(2)), ("a".into(), V::Int(1))]));
     u.push(V::Obj(vec![("a".into(), V::Int(1)), ("b".into(), V::Int(3))]));
+    // objects of one size with DIFFERENT key sets, their members not written in key order (the order of objects goes by the sorted
+    // keys, not by the text)
+    u.push(V::Obj(vec![("z".into(), V::Int(1)), ("a".into(), V::Int(2))]));
+    u.push(V::Obj(vec![("b".into(), V::Int(1)), ("c".into(), V::Int(2))]));
+    u.push(V::Obj(vec![("c".into(), V::Int(2)), ("b".into(), V::Int(9))]));
+    u.push(V::Obj(vec![("a b".into(), V::Int(1))]));
     u
 }
 
